@@ -213,30 +213,38 @@ func rulePrint(c *Ctx) {
 			"keyword token "+t+" is printed as "+strconv.Quote(lt.tokenText[t])+", which the lexer's keyword table does not map back to it")
 	}
 	c.atLeast("keywords", len(kws), 40)
-	// augmented assignment: makeAssign maps X_ASSIGN -> base op; printer writes base text + "="
-	if fd := c.funcDecl("parser", "makeAssign"); fd != nil {
+	// augmented assignment: the parser stores the base operator of X_ASSIGN into AugAssignExpr.Op (evaluated per token
+	// on the functions that build the node, gramssa2.go); the printer writes the base operator's text + "="
+	{
 		cnt := 0
-		ast.Inspect(fd.Body, func(nd ast.Node) bool {
-			cc, ok := nd.(*ast.CaseClause)
-			if !ok || len(cc.List) != 1 || len(cc.Body) != 1 {
-				return true
+		var byTok map[string][]string
+		if g := newGssa(c); g != nil {
+			byTok = g.storedByTokenParam("AugAssignExpr.Op")
+		}
+		var froms []string
+		for from := range byTok {
+			if strings.HasSuffix(from, "_ASSIGN") {
+				froms = append(froms, from)
 			}
-			as, ok := cc.Body[0].(*ast.AssignStmt)
-			if !ok || len(as.Rhs) != 1 {
-				return true
-			}
-			from := selName(cc.List[0])
-			to := selName(as.Rhs[0])
-			if from == "" || to == "" {
-				return true
-			}
+		}
+		sort.Strings(froms)
+		var apos token.Pos
+		if fd := c.funcDecl("parser", "makeAssign"); fd != nil {
+			apos = fd.Pos()
+		}
+		for _, from := range froms {
+			tos := byTok[from]
 			cnt++
 			n++
+			if len(tos) != 1 || tos[0] == "?" {
+				c.bad("tokens:augassign:"+from, apos, "for %s the parser stores %v into AugAssignExpr.Op: not a single known operator", from, tos)
+				continue
+			}
+			to := tos[0]
 			text := lt.tokenText[to] + "="
-			c.check(lt.scanText[text] == from, "tokens:augassign:"+from, cc.Pos(), strconv.Quote(text)+" is read as "+from+", which the parser maps to "+to,
+			c.check(lt.scanText[text] == from, "tokens:augassign:"+from, apos, strconv.Quote(text)+" is read as "+from+", which the parser maps to "+to,
 				"the parser maps "+from+" to "+to+", printed as "+strconv.Quote(text)+", which the lexer reads as "+strconv.Quote(lt.scanText[text]))
-			return true
-		})
+		}
 		c.atLeast("augmented assignments", cnt, 6)
 		// the printer side: AugAssignExpr.String writes Op.String() followed directly by "="
 		if sd := c.funcDecl("internal/ast", "AugAssignExpr.String"); sd != nil {
@@ -267,8 +275,6 @@ func rulePrint(c *Ctx) {
 		} else {
 			c.undecided("anchor:AugAssignExpr.String", token.NoPos, "not found")
 		}
-	} else {
-		c.undecided("anchor:makeAssign", token.NoPos, "parser.makeAssign not found")
 	}
 
 	n += printQuote(c)
@@ -503,6 +509,39 @@ func printQuote(c *Ctx) int {
 		n++
 		c.check(read == int(v[0]), "quote:escape:"+strconv.Quote(v), cc.Pos(), "written as "+s+", which the lexer reads as the same byte",
 			"byte "+strconv.Quote(v)+" is written as "+s+", which the lexer's string reader does not map back to it")
+		return true
+	})
+	// the same written as a lookup table: a package-level map from the byte to its two-character escape, never written
+	// after its initialisation, that the quoting function consults
+	ast.Inspect(q.Body, func(nd ast.Node) bool {
+		id, ok := nd.(*ast.Ident)
+		if !ok {
+			return true
+		}
+		ct := c.constTableOf(ap.TypesInfo.Uses[id])
+		if ct == nil || !ct.isMap || len(ct.strs) == 0 {
+			return true
+		}
+		var keys []int64
+		for k := range ct.strs {
+			keys = append(keys, k)
+		}
+		sort.Slice(keys, func(i, j int) bool { return keys[i] < keys[j] })
+		for _, k := range keys {
+			sv := ct.strs[k]
+			if len(sv) != 2 || sv[0] != '\\' || k < 0 || k > 255 {
+				continue
+			}
+			v := string([]byte{byte(k)})
+			explicit[int(k)] = sv
+			read := int(sv[1])
+			if le, ok := esc[sv[1]]; ok {
+				read = le.value
+			}
+			n++
+			c.check(read == int(k), "quote:escape:"+strconv.Quote(v), id.Pos(), "written as "+sv+", which the lexer reads as the same byte",
+				"byte "+strconv.Quote(v)+" is written as "+sv+", which the lexer's string reader does not map back to it")
+		}
 		return true
 	})
 	for _, must := range []byte{'"', '\\', '\n', '\r'} {
@@ -870,24 +909,17 @@ func printPrec(c *Ctx) int {
 		}
 		return 0, "", false
 	}
-	if fd := c.funcDecl("internal/ast", "BinaryExpr.precedence"); fd != nil {
-		ast.Inspect(fd.Body, func(nd ast.Node) bool {
-			cc, ok := nd.(*ast.CaseClause)
-			if !ok || cc.List == nil {
-				return true
+	// BinaryExpr.precedence evaluated on its SSA form for every operator token (a switch, an if chain and a lookup table
+	// in a package-level map are the same thing to the evaluator)
+	for _, nm := range ap.Types.Scope().Names() {
+		if k, ok := ap.Types.Scope().Lookup(nm).(*types.Const); ok && strings.HasPrefix(nm, "prec") {
+			if v, ok := constantInt(k); ok {
+				precName[v] = nm
 			}
-			for _, st := range cc.Body {
-				if r, ok := st.(*ast.ReturnStmt); ok && len(r.Results) == 1 {
-					if v, nm, ok := constVal(r.Results[0]); ok {
-						for _, e := range cc.List {
-							precOf[selName(e)] = v
-							precName[v] = nm
-						}
-					}
-				}
-			}
-			return true
-		})
+		}
+	}
+	for tk, v := range binaryPrecedences(c) {
+		precOf[tk] = v
 	}
 	fixed := func(typ string, toks ...string) {
 		fd := c.funcDecl("internal/ast", typ+".precedence")
@@ -1130,6 +1162,22 @@ func printGreater(c *Ctx) int {
 			return true
 		})
 	}
+	// BinaryExpr: evaluated per operator (binaryPrecedences), whatever the shape of its precedence method
+	if bp := binaryPrecedences(c); len(bp) > 0 {
+		if v, ok := bp["GREATER"]; ok {
+			cmpPrec = v
+		}
+		seen := map[int64]bool{}
+		var vals []int64
+		for _, v := range bp {
+			if !seen[v] {
+				seen[v] = true
+				vals = append(vals, v)
+			}
+		}
+		sort.Slice(vals, func(i, j int) bool { return vals[i] < vals[j] })
+		precs["BinaryExpr"] = vals
+	}
 	if cmpPrec < 0 {
 		c.undecided("print-greater:prec", token.NoPos, "precedence of the > comparison not found in BinaryExpr.precedence")
 		return n
@@ -1192,4 +1240,60 @@ func litText2(n ast.Node) string {
 		return b.Value
 	}
 	return ""
+}
+
+// binaryPrecedences: token name -> what BinaryExpr.precedence returns for an expression with that operator, evaluated
+// on the SSA form of the method for every token (switch, if chain or lookup table alike). Tokens for which the result
+// is not a single known integer are left out.
+func binaryPrecedences(c *Ctx) map[string]int64 {
+	if m, ok := c.memo["binaryPrecedences"].(map[string]int64); ok {
+		return m
+	}
+	out := map[string]int64{}
+	c.memo["binaryPrecedences"] = out
+	fn := c.ssaFunc("internal/ast", "BinaryExpr.precedence")
+	if fn == nil || len(fn.Params) == 0 {
+		return out
+	}
+	for _, k := range c.constsOfType("lexer", "Token") {
+		tv, ok := constantInt(k)
+		if !ok {
+			continue
+		}
+		e := &sengine{pkg: c.ssaPkg("internal/ast"), ctx: c}
+		recv := fn.Params[0]
+		e.param = func(f *ssa.Function, p *ssa.Parameter) (iv, bool) {
+			if p == recv {
+				return ivSym("e"), true
+			}
+			return iv{}, false
+		}
+		e.load = func(p *spath, fr *sframe, addr iv, in *ssa.UnOp) (iv, bool) {
+			if addr.k == 'p' && addr.s == "e.Op" {
+				return ivInt(tv), true
+			}
+			return iv{}, false
+		}
+		e.enter = func(callee *ssa.Function, args []iv) bool { return true }
+		e.startAt(fn, fn.Blocks[0], nil)
+		val, okv, first := int64(0), true, true
+		for _, o := range e.outcomes {
+			if o.panicked {
+				continue
+			}
+			if o.ret.k != 'i' {
+				okv = false
+				break
+			}
+			if first {
+				val, first = o.ret.i, false
+			} else if val != o.ret.i {
+				okv = false
+			}
+		}
+		if okv && !first && len(e.problems) == 0 {
+			out[k.Name()] = val
+		}
+	}
+	return out
 }
